@@ -32,6 +32,10 @@ COMMON_TRUSTED = [
     "correspondence harness /verif/harness (Go, built from /repo's working tree with -tags verif) and the line diff in lib/vcheck.py",
 ]
 
+# properties with a Properties/Cxx_effects.v file (statements about Gen/Effects.v)
+EFFECTS_TRUSTED = ("effect analysis harness/cmd/gen/effects.go (syntactic, over-approximated call graph; function values and "
+                   "reflection not followed; unsafe not modelled)")
+
 PROPS = {}
 
 
@@ -355,7 +359,11 @@ def witness_search(prop, res, infos):
         # shrinking re-runs the implementation, so it comes after every observation of the run was
         # classified; it replaces the content of a witness, never the decision to report it
         for w in first:
-            res.add_violation("witness", shrink_witness(prop, sc, w, info), True)
+            w = shrink_witness(prop, sc, w, info)
+            if res.broken:
+                # the run also lost proof obligations / correspondences: name them beside the failing input
+                w = dict(w, no_longer_checks=[b["name"] for b in res.broken])
+            res.add_violation("witness", w, True)
     return found
 
 
@@ -500,7 +508,7 @@ def replay(prop, res, path):
 # ------------------------------------------------------------------------------------------------
 # the properties
 
-reg(Prop("C14", "Time budget granted to a search never exceeds the clock", "Properties/C14.v",
+reg(Prop("C14", "Time budget granted to a search never exceeds the clock", ["Properties/C14.v", "Properties/C14_effects.v"],
          [StreamCfg("c14", 20000, 400000, judge="judge_c14",
                     rule="dense grid remaining in -2..257 x 15 increments x colour x 8 move times plus random "
                          "(small, 10^12-range, wild 64-bit) clock states; non-trivial = mover has a clock or a move time; "
@@ -757,7 +765,7 @@ def _c12_configs(prop, res, workdir):
 
 
 
-reg(Prop("C12", "Attack tables equal ray-walking geometry for every square and occupancy", "Properties/C12.v",
+reg(Prop("C12", "Attack tables equal ray-walking geometry for every square and occupancy", ["Properties/C12.v", "Properties/C12_effects.v"],
          [StreamCfg("c12", 13000, 1000000, judge="judge_c12",
                     rule="both tiers: EVERY subset of every relevant-occupancy mask of every square (107 648 lookups, own "
                          "carry-rippler from the empty set) through attacks.BishopMoves/RookMoves, in batches of up to 512 lookups "
@@ -840,7 +848,7 @@ reg(Prop("C08skel", "Layer A of C08: node budget never exceeded; abort checked b
                       "node counter arithmetic is not wrapped at 2^63"],
          design_ref="5/C08"))
 
-reg(Prop("C18", "Exchange evaluation matches the capture-sequence minimax it approximates", "Properties/C18.v",
+reg(Prop("C18", "Exchange evaluation matches the capture-sequence minimax it approximates", ["Properties/C18.v", "Properties/C18_effects.v"],
          [StreamCfg("c18", 100000, 1500000, judge="judge_c18",
                     rule="cases (not positions) 40 % posgen G1/G2/G4, 30 % battery generator (B0 stacked sliders/pawns on the rays "
                          "aimed at one square, knights and kings around it; Bep en passant, often with a rook/queen on the file "
@@ -1153,7 +1161,7 @@ def _c17_activation(prop, res, workdir):
         V.log("c17 activation gaps: " + ", ".join(low))
 
 
-reg(Prop("C17", "Static evaluation is colour-symmetric and depends only on the position", "Properties/C17.v",
+reg(Prop("C17", "Static evaluation is colour-symmetric and depends only on the position", ["Properties/C17.v", "Properties/C17_effects.v"],
          [StreamCfg("c17", 5000, 100000, judge="judge_c17",
                     rule="positions from G1 play-outs / G2 sparse placements incl. promoted material / G4 mutations, "
                          "random placements of 57 special materials (bare kings, insufficient material and its neighbours, "
@@ -1186,7 +1194,7 @@ reg(Prop("C17", "Static evaluation is colour-symmetric and depends only on the p
          assumptions=["board words < 2^64, exactly one king per side, knights and bishops belong to a colour (fragment of the representation invariant; part of `valid`)"],
          extra=_c17_activation, design_ref="5/C17"))
 
-reg(Prop("C05", "Pseudo-legality test accepts exactly the moves the generator emits", ["Properties/C05.v", "Properties/C05_closed.v"],
+reg(Prop("C05", "Pseudo-legality test accepts exactly the moves the generator emits", ["Properties/C05.v", "Properties/C05_closed.v", "Properties/C05_effects.v"],
          [StreamCfg("c05", 1000, 50000, judge="judge_c05",
                     rule="per position ALL 32768 encodings through Board.IsPseudoLegal and the output of GenNoisy+GenNotNoisy "
                          "(model: Model/Movegen.v; judge: accepted set = generated set on valid positions); 59 hand roots "
@@ -1367,7 +1375,7 @@ reg(Prop("C19", "The tuner optimises the same evaluation the engine plays with",
                       "and the int16 result may wrap"],
          extra=c19_extra, design_ref="5/C19"))
 
-reg(Prop("C09", "Fast checkmate and stalemate tests agree with the absence of legal moves", ["Properties/C09.v", "Properties/C09_closed.v"],
+reg(Prop("C09", "Fast checkmate and stalemate tests agree with the absence of legal moves", ["Properties/C09.v", "Properties/C09_closed.v", "Properties/C09_effects.v"],
          [StreamCfg("c09", 12000, 800000, judge="judge_c09",
                     rule="constructed only-en-passant positions (G8: pushed pawn + 1-2 capturers, king on a theme line through capturer / landing square / captured pawn or in check by the pawn, sliders behind, enemy men added until the king has no flight; kept when every legal move is an en-passant capture, plus some near misses); hand-constructed hard cases (smothered/back-rank mates, pinned interposers, en-passant capture of a "
                          "checking pawn, double-push blocks, x-ray through the king, stalemates with pinned men, stalemate broken "
@@ -1423,7 +1431,7 @@ reg(Prop("C02", "Playing a move produces the successor position the rules prescr
                       "remaining conjuncts of valid"],
          design_ref="5/C02"))
 
-reg(Prop("C01", "Playable moves are exactly the legal moves of chess", "Properties/C01.v",
+reg(Prop("C01", "Playable moves are exactly the legal moves of chess", ["Properties/C01.v", "Properties/C01_effects.v"],
          [StreamCfg("gen", 4000, 120000, judge="judge_c01x",
                     rule="positions: every root of harness/posgen (hand roots for castling next to/through attacked or "
                          "occupied squares, en passant incl. pins and file-edge cases, promotions, double checks, bare "
@@ -1475,3 +1483,8 @@ for _pid, _p in PROPS.items():
     assert all(isinstance(_r, str) and _r.endswith(".v") for _r in coq_list(_p)), f"{_pid}: coq must name .v files"
     assert all(os.path.exists(os.path.join(V.COQ, _r)) for _r in coq_list(_p)), f"{_pid}: missing Properties file"
     assert isinstance(_p.allowed_axioms, set) and all(isinstance(_a, str) for _a in _p.allowed_axioms), f"{_pid}: allowed_axioms"
+
+
+# the properties whose Properties/Cxx_effects.v states what the translator-side effect analysis found
+for _pid in ("C01", "C05", "C09", "C12", "C14", "C17", "C18"):
+    PROPS[_pid].trusted.append(EFFECTS_TRUSTED)
